@@ -95,3 +95,23 @@ chk("C09",
     "shift pressures), hydraulic and thermal.",
     "Series-split equivalence (n pipes with intermediate junctions) and the thermal side of the rewrites are covered by the oracle.",
     "Lean 4 proof of symmetry/invariance laws over translated kernels; metamorphic rewrite search", "8/C09")
+chk("C10",
+    "Lean theorems: the thermal branch residual generated from the current source vanishes iff the outlet temperature follows the "
+    "documented exponential cooling law (flowing branch) resp. equals the ambient option temperature (no flow); the node-equation "
+    "coefficients are w=c_p|m| with residual w(T_out - T_node); for the assembled thermal system (exact correspondence with "
+    "build_system_matrix(heat_mode=True)) a full Newton step leaves sum_b w_b (T_out,b - T_i) = 0 at every non-feed node of any "
+    "topology (energy-conserving mixing); feed-node rows are identities (imposed temperatures), with the k-th/k-th pairing proved "
+    "to be the identity when feed-in and T-slack nodes coincide; maximum principle (upper and lower bound) on any flow-oriented "
+    "graph whose nodes are all downstream of a feed. Oracle: cooling law per section, mean-c_p nodal energy balance, feeds, bounds.",
+    "The heat-capacity arithmetic of calculate_derivatives_thermal (mean c_p) is checked by the oracle (after the fix), not translated.",
+    "Lean 4 proof over translated thermal kernels + thermal assembly model; correspondence; thermal oracle search", "8/C10")
+chk("C11",
+    "Lean theorems: for a flowing lumped heat element the generated thermal residual vanishes iff Q_ext = |m| c_p (T_in - T_out); "
+    "with the duty the code derives for prescribed mass flow and temperature drop the outlet drops by exactly that difference; on "
+    "any network conserving mass at every node the enthalpy changes of all branches sum to zero, so the circulation pump's "
+    "mdot c_p dT equals what all other branches take out (incidence algebra, any loop topology). Oracle: duty identities, "
+    "set-points (where the property demands them), deltat report and loop closure within the c_p discretisation bound, all five "
+    "consumer modes, sequential and bidirectional.",
+    "Heat-consumer mode logic (adaption_* methods) is exercised by the oracle, not modelled; known finding: QE_TR/QE_DT consumers "
+    "in sequential mode report a duty inconsistent with their own temperatures.",
+    "Lean 4 proof over translated thermal kernel + incidence algebra; duty / closure oracle search", "8/C11")
